@@ -25,6 +25,7 @@ import (
 	"io"
 	"os"
 	"path/filepath"
+	"reflect"
 	"sort"
 	"strings"
 	"time"
@@ -81,6 +82,14 @@ type scCfg struct {
 	DescMatch bool   `json:"desc_match"`
 	MetaReq   bool   `json:"meta_req"`
 	DescGen   bool   `json:"descgen_err"`
+	// RespJSON, when set, is the stdout text of the plugin's verify-signature command: the response handed to the
+	// verifier is what json.Unmarshal makes of it (as plugin.CLIPlugin does) and Resp/AllProc/TI/RevV are derived from it
+	RespJSON string `json:"resp_json,omitempty"`
+	// Variant selects among realisations the property does not distinguish (empty vs nil vs absent):
+	// bit0 empty signature as nil slice; bit1 empty (non-nil) user metadata map when none is required;
+	// bit2 payload with an empty annotation map instead of none; bit3 empty (non-nil) processedAttributes /
+	// verificationResults instead of nil; bit4 empty (non-nil) plugin config
+	Variant int `json:"variant,omitempty"`
 }
 
 type implCfg struct {
@@ -121,6 +130,44 @@ type lcase struct {
 	UM    int     `json:"um,omitempty"`
 	Obs   string  `json:"obs,omitempty"`
 	Panic string  `json:"panic,omitempty"`
+}
+
+// decodeResp is what plugin.CLIPlugin.VerifySignature makes of a plugin's stdout.
+func decodeResp(text string) (*pluginfw.VerifySignatureResponse, error) {
+	var resp pluginfw.VerifySignatureResponse
+	err := json.Unmarshal([]byte(text), &resp)
+	return &resp, err
+}
+
+// deriveResp computes the model facts of a verify-signature answer given as
+// JSON text (independently of notation-go: own traversal of the decoded value).
+func deriveResp(s *scCfg) {
+	if s.RespJSON == "" {
+		return
+	}
+	resp, err := decodeResp(s.RespJSON)
+	if err != nil {
+		s.Resp, s.AllProc, s.TI, s.RevV = 0, true, 0, 0
+		return
+	}
+	s.Resp = 2
+	s.AllProc = !s.Crit
+	for _, x := range resp.ProcessedAttributes {
+		if str, ok := x.(string); ok && str == critKey {
+			s.AllProc = true
+		}
+	}
+	verdict := func(c pluginfw.Capability) int {
+		v, ok := resp.VerificationResults[c]
+		if !ok || v == nil {
+			return 0
+		}
+		if v.Success {
+			return 1
+		}
+		return 2
+	}
+	s.TI, s.RevV = verdict(pluginfw.CapabilityTrustedIdentityVerifier), verdict(pluginfw.CapabilityRevocationCheckVerifier)
 }
 
 func okSc() scCfg {
@@ -213,6 +260,7 @@ func optBool(k int) string {
 }
 
 func scTerm(s scCfg) string {
+	s.Variant, s.RespJSON = 0, ""
 	if s == okSc() {
 		return "sc0"
 	}
@@ -292,7 +340,14 @@ const (
 
 var blobContent = []byte("C12 blob content: the artifact that is signed and verified\n")
 
+type libVerifier interface {
+	notation.Verifier
+	notation.BlobVerifier
+	SkipVerify(ctx context.Context, opts notation.VerifierVerifyOptions) (bool, *trustpolicy.VerificationLevel, error)
+}
+
 type env struct {
+	shared   libVerifier // history groups: the one verifier instance all steps use
 	now      time.Time
 	good     Chain
 	other    Chain
@@ -314,6 +369,10 @@ func newEnv() *env {
 func (e *env) payload(kind int) []byte {
 	d := e.desc
 	switch kind {
+	case 11:
+		d.Annotations = map[string]string{}
+		b, _ := json.Marshal(map[string]any{"targetArtifact": map[string]any{"mediaType": d.MediaType, "digest": d.Digest, "size": d.Size, "annotations": map[string]string{}}})
+		return b
 	case 0:
 		return []byte(`{"targetArtifact":"not a descriptor"}`)
 	case 2:
@@ -327,9 +386,16 @@ func (e *env) payload(kind int) []byte {
 // envelope returns the signature bytes realising the envelope-borne facts of s.
 func (e *env) envelope(s scCfg) []byte {
 	if s.Sig == 0 {
+		if s.Variant&1 != 0 {
+			return nil
+		}
 		return []byte{}
 	}
-	key := fmt.Sprintf("%s|%d|%d|%d|%v|%v|%v|%d|%d", s.Format, s.PAttr, s.PInvKind, s.Minver, s.NonStr, s.Crit, s.ExpFail, s.Payload, s.Sig)
+	pk := s.Payload
+	if pk == 1 && s.Variant&4 != 0 {
+		pk = 11
+	}
+	key := fmt.Sprintf("%s|%d|%d|%d|%v|%v|%v|%d|%d", s.Format, s.PAttr, s.PInvKind, s.Minver, s.NonStr, s.Crit, s.ExpFail, pk, s.Sig)
 	if b, ok := e.envCache[key]; ok {
 		return b
 	}
@@ -366,7 +432,7 @@ func (e *env) envelope(s scCfg) []byte {
 	if s.ExpFail {
 		exp = st.Add(30 * time.Minute)
 	}
-	b, err := SignEnvelope(EnvSpec{Format: s.Format, Chain: e.good, Payload: e.payload(s.Payload), SigningTime: st, Expiry: exp, ExtAttrs: attrs})
+	b, err := SignEnvelope(EnvSpec{Format: s.Format, Chain: e.good, Payload: e.payload(pk), SigningTime: st, Expiry: exp, ExtAttrs: attrs})
 	if err != nil {
 		panic(fmt.Sprintf("c12: sign %+v: %v", s, err))
 	}
@@ -465,10 +531,12 @@ func (r *mockRepo) PushSignature(ctx context.Context, mediaType string, blob []b
 
 // ---------- canonicalisation ----------
 
+// sameErr: the two error values are the same value (an error whose dynamic
+// type is not comparable, e.g. a struct holding a map, is compared deeply).
 func sameErr(a, b error) (eq bool) {
 	defer func() {
 		if recover() != nil {
-			eq = false
+			eq = reflect.DeepEqual(a, b)
 		}
 	}()
 	return a == b
@@ -667,11 +735,23 @@ func (e *env) build(c *lcase, sc scCfg) (v interface {
 			}
 			p.Meta = &pluginfw.GetMetadataResponse{Name: "plug", Description: "scripted", Version: ver, URL: "https://example", SupportedContractVersions: []string{"1.0"}, Capabilities: caps}
 		}
-		switch sc.Resp {
-		case 0:
+		switch {
+		case sc.RespJSON != "":
+			resp, err := decodeResp(sc.RespJSON)
+			p.Resp = resp
+			if err != nil {
+				p.VerifyErr = fmt.Errorf("c12: malformed verify-signature response: %w", err)
+			}
+		case sc.Resp == 0:
 			p.VerifyErr = errors.New("c12: verify-signature fails")
-		case 2:
-			resp := &pluginfw.VerifySignatureResponse{VerificationResults: map[pluginfw.Capability]*pluginfw.VerificationResult{}}
+		case sc.Resp == 2:
+			resp := &pluginfw.VerifySignatureResponse{}
+			if sc.Variant&8 != 0 || sc.TI != 0 || sc.RevV != 0 {
+				resp.VerificationResults = map[pluginfw.Capability]*pluginfw.VerificationResult{}
+			}
+			if sc.Variant&8 != 0 {
+				resp.ProcessedAttributes = []interface{}{}
+			}
 			if sc.AllProc {
 				resp.ProcessedAttributes = []interface{}{critKey}
 			}
@@ -734,6 +814,16 @@ func userMeta(s scCfg) map[string]string {
 	if s.MetaReq {
 		return map[string]string{"k": "v"}
 	}
+	if s.Variant&2 != 0 {
+		return map[string]string{}
+	}
+	return nil
+}
+
+func pluginConfig(s scCfg) map[string]string {
+	if s.Variant&16 != 0 {
+		return map[string]string{}
+	}
 	return nil
 }
 
@@ -778,7 +868,9 @@ func (e *env) execCase(c *lcase) (term string) {
 		notation.BlobVerifier
 		SkipVerify(ctx context.Context, opts notation.VerifierVerifyOptions) (bool, *trustpolicy.VerificationLevel, error)
 	}
-	if lib {
+	if lib && e.shared != nil {
+		v = e.shared
+	} else if lib {
 		var err error
 		v, _, err = e.build(c, sc)
 		if err != nil {
@@ -791,11 +883,11 @@ func (e *env) execCase(c *lcase) (term string) {
 		if !sc.DescMatch {
 			d.Size++
 		}
-		o, err := v.Verify(ctx, d, e.envelope(sc), notation.VerifierVerifyOptions{ArtifactReference: e.ociRef(c.OCI), SignatureMediaType: sc.Format, UserMetadata: userMeta(sc)})
+		o, err := v.Verify(ctx, d, e.envelope(sc), notation.VerifierVerifyOptions{ArtifactReference: e.ociRef(c.OCI), SignatureMediaType: sc.Format, UserMetadata: userMeta(sc), PluginConfig: pluginConfig(sc)})
 		return retTerm(false, "None", []*notation.VerificationOutcome{o}, o != nil, err)
 	case "VerifyBlob":
 		gen := e.descGen(sc)
-		o, err := v.VerifyBlob(ctx, gen, e.envelope(sc), notation.BlobVerifierVerifyOptions{SignatureMediaType: sc.Format, UserMetadata: userMeta(sc), TrustPolicyName: blobPolicyName(c.Blob)})
+		o, err := v.VerifyBlob(ctx, gen, e.envelope(sc), notation.BlobVerifierVerifyOptions{SignatureMediaType: sc.Format, UserMetadata: userMeta(sc), TrustPolicyName: blobPolicyName(c.Blob), PluginConfig: pluginConfig(sc)})
 		return retTerm(false, "None", []*notation.VerificationOutcome{o}, o != nil, err)
 	case "SkipVerify":
 		skip, lvl, err := v.SkipVerify(ctx, notation.VerifierVerifyOptions{ArtifactReference: e.ociRef(c.OCI)})
@@ -927,10 +1019,15 @@ func run(a *Args) error {
 	e := newEnv()
 
 	var id int64
-	emit := func(c *lcase) {
+	// emitMode runs and records one case; with force the case is executed even
+	// when it is not the one asked for (earlier steps of a history group)
+	emitMode := func(c *lcase, force bool) {
 		my := id
 		id++
 		if !w.Want(my) {
+			if force {
+				e.execCase(c)
+			}
 			return
 		}
 		obs := e.execCase(c)
@@ -944,6 +1041,30 @@ func run(a *Args) error {
 		w.Count("entry", c.Entry)
 		w.Count("observation", obsKind(obs))
 		w.Count("construction", construction(c))
+	}
+	emit := func(c *lcase) { emitMode(c, false) }
+	// history runs the steps on ONE verifier instance built from base
+	history := func(base lcase, steps []func(c *lcase)) {
+		start, end := id, id+int64(len(steps))
+		if a.Only >= 0 && (a.Only < start || a.Only >= end) {
+			id = end
+			return
+		}
+		base.Entry = "Verify"
+		normalize(&base)
+		v, _, err := e.build(&base, base.Sc)
+		if err != nil {
+			panic(fmt.Sprintf("c12: history base refused: %v", err))
+		}
+		e.shared = v
+		for _, st := range steps {
+			c := base
+			c.N.Items = nil
+			st(&c)
+			normalize(&c)
+			emitMode(&c, true)
+		}
+		e.shared = nil
 	}
 
 	// corpus first
@@ -963,7 +1084,7 @@ func run(a *Args) error {
 			emit(&c)
 		}
 	}
-	genLattice(a, rng, emit)
+	genLattice(a, rng, emit, history)
 	w.Set("part1", "nil-ability lattice: evaluated in Coq against C12_Model (model = implementation, and the oracle spec_ok on the implementation's observation)")
 	if err := explore(a, rng, w, id); err != nil {
 		return err
